@@ -47,6 +47,8 @@ def crystal(name):
         return bulk("Mg", orthorhombic=True), "C"          # hcp in its orthohexagonal (C-centred) cell
     if name == "NaCl":
         return bulk("NaCl", "rocksalt", a=5.64, cubic=True), "F"
+    if name == "Po4":
+        return Atoms("Po", positions=[(0, 0, 0)], cell=(4.0, 4.0, 4.0), pbc=True), "P"
     if name == "mixedI":
         return Atoms("O2Ti", scaled_positions=[(0, 0, 0), (0.5, 0.5, 0.5), (0.21, 0.33, 0.12)], cell=(4.0, 4.0, 4.0), pbc=True), "P"
     if name == "mixedC":
@@ -94,8 +96,10 @@ def _sf_event(c):
         kw["thermal_sigma"] = {s: 0.06 + 0.03 * i for i, s in enumerate(symbols)}
     if c["partial_occupancy"]:
         kw["occupancy"] = {s: 0.7 + 0.2 * i for i, s in enumerate(symbols)}
+    if c.get("hard_cutoff"):
+        kw["cutoff"] = "hard"
     ev = {"k": "sf", "case": c, "centering": cen, "raised": False, "friedel_ppb": 0, "mag": [], "tabulated": [], "translation_ppb": 0, "imag_ppb": 0, "lazy_ppb": 0,
-          "auto_dropped_nonzero": 0}
+          "auto_dropped_nonzero": 0, "friedel_missing": 0}
     with warnings.catch_warnings():
         warnings.simplefilter("ignore")
         try:
@@ -113,6 +117,7 @@ def _sf_event(c):
                 if j is not None:
                     fr = max(fr, abs(F[j] - np.conj(F[i])) / scale)
             ev["friedel_ppb"] = ppb(fr)
+            ev["friedel_missing"] = int(sum(1 for h, i in key.items() if (-h[0], -h[1], -h[2]) not in key and abs(F[i]) / scale > 5e-5))
             for h, i in key.items():
                 if max(abs(v) for v in h) <= 2:
                     ev["mag"].append([h[0], h[1], h[2], ppb(abs(F[i]) / scale)])
